@@ -263,8 +263,12 @@ def r8_factor_table(idx, r):
     r.require(cleared, "_setExpansionTarget:one-target-per-block", st,
               msg="registering a target leaves a previously designated component of the same block registered as well: after re-targeting (determineTargetComponent(b, flag)) the block has two "
                   "'targets', the stale one still moves the block boundary and the designated component's mass is not conserved")
-    if n < 1:
-        raise AnalysisError("no binding of ExpansionData._expansionFactors found")
+    cls_level = [x for x in c.node.body if isinstance(x, (ast.Assign, ast.AnnAssign)) and getattr(x, "value", None) is not None
+                 and any(norm(t) == "_expansionFactors" for t in (x.targets if isinstance(x, ast.Assign) else [x.target]))]
+    r.require(not cls_level, "factor-table:no-class-level-table", c, node=cls_level[0] if cls_level else None,
+              msg=f"`{norm(cls_level[0])[:60] if cls_level else ''}` makes ONE table shared by every ExpansionData: prescribed factors of an earlier assembly or step leak into later ones")
+    init_bind = any(s_.chain == "self._expansionFactors" and s_.kind == "assign" for s_ in iter_stores(c.methods["__init__"].node)) if "__init__" in c.methods else False
+    r.require(init_bind, "factor-table:bound-per-instance", c.methods.get("__init__") or c, msg="__init__ must bind a fresh factor table for every ExpansionData")
 
 
 def r9_unique_link_both_ways(idx, r):
@@ -285,6 +289,27 @@ def r9_unique_link_both_ways(idx, r):
     shapes = {(len(c_.args), tuple(sorted(k.arg for k in c_.keywords))) for c_ in calls}
     r.require(len(calls) == 2 and len(shapes) == 1, "_getLinkedComponents:both-neighbours-searched-alike", g, node=calls[0] if calls else None,
               msg=f"the upper and the lower neighbour are searched with different arguments {sorted(shapes)}: uniqueness is then enforced for one direction only")
+
+
+def r10_mass_switches(idx, r):
+    """(a) Component.changeNDensByFactor binds a NEW density mapping: scaling in place also rescales every other component that shares the
+    mapping object (copyParamsFrom, explicit sharing), once per expansion.  (b) when a block is snapped to a new mesh the fuel mass of a FUEL
+    block is conserved whatever the flags of its assembly: the fuel-block branch of _shouldMassBeConserved depends on the block alone."""
+    f = idx.method("armi.reactor.components.component.Component", "changeNDensByFactor")
+    bind = [s_ for s_ in iter_stores(f.node) if s_.chain == "self.p.numberDensities" and s_.kind == "assign"]
+    inpl = [s_ for s_ in iter_stores(f.node) if s_.kind in ("subscript", "subscript-aug") and ("numberDensities" in norm(s_.node.value))]
+    env = single_assign_env(f.node)
+    r.require(len(bind) == 1 and isinstance(propagate(bind[0].value, env), (ast.DictComp, ast.Call, ast.Dict)) and not inpl, "changeNDensByFactor:new-mapping", f, node=inpl[0].stmt if inpl else None,
+              msg="the densities are rescaled inside the existing mapping: a component sharing that mapping is rescaled too (and again at every expansion), so its mass is not conserved")
+    g = idx.method("armi.reactor.assemblies.Assembly", "_shouldMassBeConserved")
+    blk = g.params()[2] if len(g.params()) > 2 else g.params()[-1]
+    st = [s_ for s_ in iter_stores(g.node) if s_.attr == "conserveComponents" and s_.value is not None and "Flags.FUEL" in norm(s_.value)]
+    if len(st) != 1:
+        raise AnchorMissing("_shouldMassBeConserved: conserveComponents = b.getComponents(Flags.FUEL)")
+    conds = [(norm(t), p) for t, p in path_conditions(g.node, st[0].stmt)]
+    bname = norm(st[0].value.func.value) if isinstance(st[0].value, ast.Call) else "b"
+    r.require(conds == [(f"{bname}.hasFlags(Flags.FUEL)", True)], "_shouldMassBeConserved:fuel-block-whatever-the-assembly", g, node=st[0].stmt,
+              msg=f"the fuel mass of a fuel block is conserved only under {conds}: in an assembly whose own flags lack FUEL (a radial blanket) the fuel blocks change mass when they are snapped to the expanded mesh")
 
 
 def run(idx, chk):
@@ -310,3 +335,5 @@ def run(idx, chk):
                  necessary="a block's height follows its designated target and a zero net temperature change restores the assembly")
     chk.run_rule("R12.9", "the search for the axially linked component scans every candidate and treats both neighbours alike", lambda r: r9_unique_link_both_ways(idx, r), floor=3,
                  necessary="a component linked to two components of a neighbouring block is refused, whichever side they are on")
+    chk.run_rule("R12.10", "density scaling binds a new mapping; fuel-block mass conservation depends on the block's flags alone", lambda r: r10_mass_switches(idx, r), floor=2,
+                 necessary="the mass of every solid component is conserved through expansion and re-meshing")
